@@ -19,3 +19,5 @@ pub mod gen_tracks;
 pub mod transport;
 pub mod conn;
 pub mod c06;
+pub mod pkt;
+pub mod c01;
